@@ -2,7 +2,8 @@
 (* C17: the configuration space of an assembler invocation and a pairwise-covering sample of it.           *)
 (*                                                                                                          *)
 (* Factors are the *report-only* options of the property statement plus the places an option can come from, *)
-(* the working directory, the output path and the message language.  Code-affecting options (-cpu -D -i -U   *)
+(* the working directory (with and without decoy include files in it), the output path and the message       *)
+(* language.  Code-affecting options (-cpu -D -i -U                                                           *)
 (* -relaxed -supmode -compmode -alias -G -o target -Werror -w -maxerrors) are NOT factors: they belong to     *)
 (* the program under test (a golden test's asflags) and are held fixed across all vectors (Driver.tla:       *)
 (* CodeAffecting / ReportOnly; Driver_MC: ReportOptionsDoNotInterfere).                                      *)
@@ -37,7 +38,12 @@ F ==
     h       |-> BOOLEAN,                                     \* lower case hex (dropped for sources using \{...})
     split   |-> {"none", "dot", "colon"},                    \* -SPLITBYTE (dropped for sources using \{...})
     src     |-> {"argv", "ascmd", "keyfile", "ascmdkey"},    \* where the report options are given
-    cwd     |-> {"srcdir", "parent", "elsewhere"},           \* working directory relative to the source
+    \* working directory relative to the source, and what lies in it: "<dir>_decoy" = the same directory, but it holds a
+    \* DECOY file (different content) for every name the source finds through the -i include path only.  By the manual
+    \* (INCLUDE: directory of the including file, then the -i list) the working directory is never searched, so the
+    \* decoys must not matter.  (No decoy value for "srcdir": there the working directory IS the first directory searched.)
+    \* The search itself, with files in every combination of places, is IncSearch.tla.
+    cwd     |-> {"srcdir", "parent", "elsewhere", "parent_decoy", "elsewhere_decoy"},
     out     |-> {"default", "otherdir", "renamed"},          \* -o
     lang    |-> {"C", "de_DE", "en_US"},                     \* message language
     langvar |-> {"LANG", "LC_ALL"}                          \* variable carrying it
